@@ -154,6 +154,13 @@ def override_forwarding(repo):
             if k.arg is not None:
                 handed[k.arg] = k.value
         splat = any(k.arg is None for k in call.keywords)
+        # options swallowed by the override's own **kwargs and handed on as **kwargs: forwarded (as far as this rule goes;
+        # whether the front end can still *see* them is the signature-probe rule, C12.probe)
+        kwarg = ov.node.args.kwarg.arg if ov.node.args.kwarg is not None else None
+        if kwarg is not None and any(k.arg is None and isinstance(k.value, ast.Name) and k.value.id == kwarg for k in call.keywords):
+            for p in parent_params:
+                if p not in ov.params[1:] and p not in handed:
+                    yield c, ov, p, True, call
         for p in ov.params[1:]:
             if p not in parent_params:
                 continue
